@@ -178,6 +178,13 @@ theorem invQ_step (V : Variant) (hE : V.mExc ≠ []) (s s' : State) (e : Ev) (h 
     split at hs
     · simp at hs
     · simp only [Option.some.injEq] at hs; subst hs; exact ⟨h.q⟩
+  | L j =>
+    simp only [step] at hs
+    split at hs
+    · simp only [Option.some.injEq] at hs; subst hs; exact ⟨h.q⟩
+    · simp at hs
+  | O j g =>
+    simp only [step, Option.some.injEq] at hs; subst hs; exact ⟨h.q⟩
 
 theorem reachable_invQ {V : Variant} (hE : V.mExc ≠ []) {jobs : List Job} {s : State} (h : Reachable V jobs s) : InvQ s := by
   induction h with
